@@ -63,3 +63,16 @@ class Box:
     class Lid:
         def open(self, x):
             return top(x)
+
+
+def make2():
+    """a function two function scopes deep (its qualified name has two <locals> parts)"""
+    def mid():
+        def deep(x):
+            v = x + 6
+            return v
+        return deep
+    return mid()
+
+
+deep2 = make2()
